@@ -24,7 +24,7 @@ def units(tier):
     q = tier == "quick"
     us = []
     rot = 0
-    progs = PG.base_programs() + [dict(unit=u, spec=["int_decl"], exec=["assign", ["if_then", ["assign"]]]) for u in ("two_units", "module", "program_contains", "subroutine")]
+    progs = PG.base_programs() + [dict(unit=u, spec=["int_decl"], exec=["assign", ["if_then", ["assign"]]]) for u in ("two_units", "module", "program_contains", "subroutine", "program_anon", "sub_then_anon", "anon_then_sub")]
     for p in progs:
         n = len(_lines(p))
         f08 = G.is_f08(p)
